@@ -1,4 +1,5 @@
 import Ovldverif.Model.Json
+import Ovldverif.Model.JsonD
 /-! Line-protocol driver: one JSON scenario per input line, one JSON result per output line. -/
 open Lean Ovld
 
@@ -9,6 +10,55 @@ def runA (j : Json) : Except String Json := do
   let sub := ts.map (fun a => String.join (ts.map (fun b => if subclasscheck H a b then "1" else "0")))
   return Json.mkObj [("ord", toJson ord), ("sub", toJson sub)]
 
+def dedupS (xs : List String) : List String :=
+  (xs.foldl (fun acc x => if acc.contains x then acc else x :: acc) []).mergeSort (fun a b => a ≤ b)
+
+def ckStr (keys : List Key) (ck : CKey Key) : String :=
+  let ki := match keys.findIdx? (· == ck.2) with | some i => toString i | none => "?"
+  match ck.1 with
+  | some c => s!"{c}:{ki}"
+  | none => s!"-:{ki}"
+
+def slotStr : Slot → String
+  | .pos i => s!"p{i}"
+  | .kw n => s!"k{n}"
+
+def runD (j : Json) : Except String Json := do
+  let cfg ← cfgOfJson j
+  let meths ← (← jArr (← jField j "meths")).toList.mapM methOfJson
+  let keys ← (← jArr (← jField j "keys")).toList.mapM keyOfJson
+  let rts ← (← jArr (jFieldD j "rtypes" (Json.arr #[]))).toList.mapM tyOfJson
+  let ops ← jArr (← jField j "ops")
+  let mut mm : MMap := {}
+  let mut out : Array Json := #[]
+  for op in ops do
+    let a ← jArr op
+    let kind ← jStr a[0]!
+    let mut res : Json := Json.null
+    if kind == "reg" then
+      let mi ← jNat a[1]!
+      match meths[mi]? with
+      | some m => mm := mm.register m
+      | none => throw "bad method index"
+    else if kind == "get" then
+      let c : Option Nat ← (if a[1]!.isNull then pure none else some <$> jNat a[1]!)
+      let ki ← jNat a[2]!
+      match keys[ki]? with
+      | some k =>
+        let (mm', r) := mm.lookup cfg (c, k)
+        mm := mm'
+        res := resToJson r
+      | none => throw "bad key index"
+    else throw s!"bad op {kind}"
+    let ck := dedupS (mm.st.cacheKeys.map (ckStr keys))
+    let ek := dedupS (mm.st.errorKeys.map (ckStr keys))
+    let ak := dedupS (mm.st.allKeys.map (fun k => ckStr keys (none, k)))
+    let tk := dedupS (mm.tcache.map (fun e =>
+      let ti := match rts.findIdx? (· == e.2) with | some i => toString i | none => "?"
+      s!"{slotStr e.1}:{ti}"))
+    out := out.push (Json.mkObj [("r", res), ("ck", toJson ck), ("ek", toJson ek), ("ak", toJson ak), ("tk", toJson tk)])
+  return Json.mkObj [("ops", Json.arr out)]
+
 def runLine (line : String) : String :=
   match Json.parse line with
   | .error e => (Json.mkObj [("error", Json.str s!"parse: {e}")]).compress
@@ -17,6 +67,7 @@ def runLine (line : String) : String :=
       let layer ← jStr (← jField j "layer")
       match layer with
       | "A" => runA j
+      | "D" => runD j
       | _ => throw s!"unknown layer {layer}"
     match r with
     | .ok v => v.compress
